@@ -63,6 +63,7 @@ func runC10(p *Prog, r *Report) {
 	r.MinInstances["C10.R3c"] = 3
 	r.MinInstances["C10.R3d"] = 2
 	r.MinInstances["C10.R4"] = 6
+	r.MinInstances["C10.R7"] = 1
 	c.ruleR1()
 	c.ruleR2()
 	c.ruleR3()
@@ -71,6 +72,7 @@ func runC10(p *Prog, r *Report) {
 	checkLockReentrancy(p, r, "C10.R3e")
 	c.ruleR3f()
 	c.ruleR6()
+	c.ruleR7()
 }
 
 func (c *c10ctx) anchors() bool {
@@ -380,6 +382,40 @@ func (c *c10ctx) ruleR1() {
 						}
 					}
 				}
+			}
+		}
+		if !okc {
+			// any other spelling (a switch that refuses the other states, ...): decided by going through
+			// the states one at a time - conditional constant propagation with the state field
+			// assumed to hold that state on entry; the store of Starting may be reachable for
+			// Inactive only
+			var names []string
+			for nm := range c.consts {
+				names = append(names, nm)
+			}
+			sort.Strings(names)
+			reach := map[string]bool{}
+			for _, nm := range names {
+				res := sccpFields(impl, nil, map[string]lat{c.stateField: latInt(c.consts[nm])})
+				for _, st := range StoresTo(impl, c.anyT.Obj().Name(), c.stateField) {
+					if v, isC := constInt(stripConv(st.Val)); isC && v == c.consts["Starting"] && res.Executable(st) {
+						reach[nm] = true
+					}
+				}
+			}
+			var wrong []string
+			for _, nm := range names {
+				if nm != "Inactive" && reach[nm] {
+					wrong = append(wrong, nm)
+				}
+			}
+			if reach["Inactive"] && len(wrong) == 0 && len(names) >= 2 {
+				r.OK("C10.R1", FuncName(impl)+" only from Inactive", p.Pos(impl.Pos()), "with the state assumed to be each of "+strings.Join(names, ", ")+" in turn, the store of Starting can run for Inactive only")
+				continue
+			}
+			if len(wrong) > 0 {
+				r.Bad("C10.R1", FuncName(impl)+" only from Inactive", p.Pos(impl.Pos()), "the Starting transition can be taken when the state is "+strings.Join(wrong, ", ")+": a source that is running, starting or still stopping could be started again")
+				continue
 			}
 		}
 		r.Check(okc, "C10.R1", FuncName(impl)+" only from Inactive", p.Pos(impl.Pos()), "Starting is entered only when the state is Inactive", "the Starting transition is not guarded by state == Inactive: a running source could be started twice")
@@ -1149,4 +1185,91 @@ func enclosingSelect(in ssa.Instruction) *ssa.Select {
 		}
 	})
 	return found
+}
+
+// ---- R7: a remembered error that blocks a start is replaced by every later result ------------
+
+// ruleR7: an error-typed field of a source that some function returns as its own error (so a
+// remembered failure blocks the start) must not be sticky.  Each store of a computed error into
+// such a field is either unconditional with respect to that error, or - when it sits under the
+// test `err != nil` of the value it stores - is paired with a store of nil on the other outcome.
+// Otherwise one rejected configuration makes every later start fail although the source is
+// inactive and was configured successfully since.
+func (c *c10ctx) ruleR7() {
+	p, r := c.p, c.r
+	// blocking fields: loaded and returned as the error result
+	blocking := map[FieldKey]*ssa.Function{}
+	for _, fn := range p.LibFuncs() {
+		Instrs(fn, func(in ssa.Instruction) {
+			ret, ok := in.(*ssa.Return)
+			if !ok || len(ret.Results) == 0 {
+				return
+			}
+			res := ret.Results[len(ret.Results)-1]
+			if !isErrorType(res.Type()) {
+				return
+			}
+			if ld, ok := res.(*ssa.UnOp); ok && ld.Op == token.MUL {
+				if k, ok := fieldKeyOfAddr(ld.X); ok {
+					blocking[k] = fn
+				}
+			}
+		})
+	}
+	for _, fn := range p.LibFuncs() {
+		Instrs(fn, func(in ssa.Instruction) {
+			st, ok := in.(*ssa.Store)
+			if !ok || !isErrorType(st.Val.Type()) {
+				return
+			}
+			k, ok := fieldKeyOfAddr(st.Addr)
+			if !ok || blocking[k] == nil {
+				return
+			}
+			if cst, isC := st.Val.(*ssa.Const); isC && cst.IsNil() {
+				return
+			}
+			r.Fn(FuncName(fn))
+			key := fmt.Sprintf("%s remembered in %s is replaced by every later result", k.String(), FuncName(fn))
+			sticky := false
+			for _, ci := range controllingIfs(st.Block()) {
+				bo, ok := ci.If.Cond.(*ssa.BinOp)
+				if !ok || (bo.Op != token.NEQ && bo.Op != token.EQL) {
+					continue
+				}
+				var other ssa.Value
+				if bo.X == st.Val {
+					other = bo.Y
+				} else if bo.Y == st.Val {
+					other = bo.X
+				}
+				cst, isC := other.(*ssa.Const)
+				if other == nil || !isC || !cst.IsNil() {
+					continue
+				}
+				nonNilSide := 0
+				if bo.Op == token.EQL {
+					nonNilSide = 1
+				}
+				if ci.Branch != nonNilSide {
+					continue
+				}
+				// stored only when non-nil: is nil stored on the other outcome?
+				cleared := false
+				for _, s2 := range StoresTo(fn, k.Owner, k.Field) {
+					if c2, isC2 := s2.Val.(*ssa.Const); isC2 && c2.IsNil() {
+						ob := ci.If.Block().Succs[1-nonNilSide]
+						if ob == s2.Block() || ob.Dominates(s2.Block()) || InstrDominates(s2, ci.If) {
+							cleared = true
+						}
+					}
+				}
+				if !cleared {
+					sticky = true
+				}
+			}
+			r.Check(!sticky, "C10.R7", key, p.InstrPos(st), "stored whatever the result was (nil clears an earlier error)",
+				"the error is stored only when it is not nil and nothing stores nil otherwise: after one failed attempt "+FuncName(blocking[k])+" keeps returning the stale error, so the source can never be started again although it is inactive and a later configuration succeeded")
+		})
+	}
 }
